@@ -91,6 +91,7 @@ def HASH_RULES():
     ]
     GF = "groestl_aesni::compressor::{mul2, submix, round, rounds_p_q, rounds_p, rounds_q, transpose_a, transpose_b, transpose_b_inv, transpose_o_b, transpose_o_b_inv, transpose, transpose_inv, tf512_impl, of512_impl, init512_impl, tf1024_impl, of1024_impl, init1024_impl}"
     core.append((r"groestl_core::c07_(leaf|lemma)", dict(filter="groestl_core::", props=["C07"], tier="quick", funcs=GF, timeout=3600)))
+    core.append((r"groestl_core::c07_dispatch", dict(filter="groestl_core::", props=["C07"], tier="quick", funcs="groestl_aesni::compressor::{aes,ssse3,sse2}::* wrappers and autodetect::* (lazy_static function-pointer table over CPUID)", timeout=1200)))
     core.append((r"groestl_core::c07_wiring", dict(filter="groestl_core::", props=["C07", "C16"], tier="quick", funcs=GF, timeout=2400)))
     core.append((r"skein_ubi::c05_process_block", dict(filter="skein_ubi::", props=["C05", "C16"], tier="quick", timeout=3000, tier_by_prop={"C16": "thorough"},
                  funcs="skein_hash::Skein{256,512,1024}::process_block with threefish_cipher::{with_tweak, encrypt_block, read/write_u64v_le} executed and mix as uninterpreted function")))
